@@ -71,7 +71,9 @@ class Prog:
                 out.append(("var", asg))
             elif k < 0.65:
                 attrs = {nm: self.value_expr() for nm in r.sample(NAMES, r.choice([0, 1, 1, 2]))}
-                out.append(("g", attrs, self.block(depth + 1, r.randint(1, 4))))
+                # one in five is an empty, self-closing group (a marker / anchor): its attributes open a scope that has no
+                # descendants at all, so nothing after it may see them
+                out.append(("g", attrs, [] if r.random() < 0.2 else self.block(depth + 1, r.randint(1, 4))))
                 if attrs:
                     self.shadow = True
             elif k < 0.73:
@@ -152,6 +154,8 @@ class Prog:
                 lines.append('%s<text xy="0 %d" text="[P%d:$a|$b|$c|$i|$q]"/>' % (ind, node[1], node[1]))
             elif t == "var":
                 lines.append("%s<var%s/>" % (ind, self.attrs_text(node[1])))
+            elif t == "g" and not node[2]:
+                lines.append("%s<g%s/>" % (ind, self.attrs_text(node[1])))
             elif t == "g":
                 lines.append("%s<g%s>" % (ind, self.attrs_text(node[1])))
                 lines += self.render(node[2], ind + "  ")
